@@ -29,6 +29,7 @@ static int gen_c09(cs_t *cs, void *k, const runcfg_t *cfg) {
         if (g_fent[c->ent].kind == FK_PRINTF) d->flags = (uint8_t)(cs_range(cs, 0, 2) == 0 ? 1 : 0);
         c->tail_lit = (uint8_t)cs_range(cs, 0, 1);
         c->dmax_rel = 0; c->dbos = (uint8_t)cs_noise(cs, 0, 1); c->locale = 0; c->dirty = 1;
+        c->argmode = (uint8_t)(cs_range(cs, 0, 1) ? 2 : 0); /* positional form %1$n / %2$ln */
         return 1;
     }
     c->nd = (int)cs_range(cs, 1, 4);
@@ -42,6 +43,7 @@ static int gen_c09(cs_t *cs, void *k, const runcfg_t *cfg) {
     c->dbos = (uint8_t)cs_range(cs, 0, 1);
     c->locale = (uint8_t)cs_range(cs, 0, 1);
     c->dirty = 1;
+    c->argmode = (uint8_t)(cs_range(cs, 0, 5) == 0 ? 2 : 0);
     return 1;
 }
 
